@@ -46,6 +46,9 @@ func RunC01(tracePath, statsPath string, seed int64, nHist, K int, o HistOpts) e
 			if hi%2 == 1 {
 				oo.TieBias = true
 			}
+			if hi%4 == 2 {
+				oo.Fanout = true
+			}
 			w.Extra = func(w *World, rec Rec) {
 				if rec["ev"] == "EndBlock" {
 					ev := sha256.New()
